@@ -77,8 +77,9 @@ CHECKS["C06"] = {
                  "histories on the real engine; differential across orders + reference interpreter + node-count lower bound",
     "design_ref": "DESIGN.md 2/C06",
     "parts": [{"name": "twins", "exe": "c01_order", "sources": ["c01_order.cpp"], "sub": "c06", "shards": {"quick": 16, "thorough": 256}},
-              {"name": "ports", "exe": "c06_ports", "sources": ["c06_ports.cpp"], "shards": 16}],
-    "rule": "every base DAG program of <= N statements (vocabulary of C01 without inlining) with one statement duplicated in each of four "
+              {"name": "ports", "exe": "c06_ports", "sources": ["c06_ports.cpp"], "shards": 16},
+              {"name": "errcap", "exe": "c06_errcap", "sources": ["c06_errcap.cpp"], "shards": 8}],
+    "rule": "errcap part: x -> Mid -> Risky (throws on negative input) and 2..3 independent blocks, each asking for the error time-series of Risky with its own capture options (trace depth 0/1/2, with / without input values), through equal sub-expressions (one shared instance) or one common port; every permutation of the block statements x every history with a throw: every block sees the same (message, back trace without node ids) stream in all orders, an error tick exactly in the throwing cycles. every base DAG program of <= N statements (vocabulary of C01 without inlining) with one statement duplicated in each of four "
             "ways — exact twin (same definition, inputs, scalars: may be shared), scalar variant, input variant, passive() marker on one "
             "input (each must stay a distinct node) — plus a combiner reading both and a sink on every port (twin sinks have equal keys and "
             "must stay distinct); x EVERY insertion order via delayed_binding; x every tick pattern (T=2) of every source. Oracle: every order "
